@@ -326,6 +326,7 @@ let clauses_costs _h (impl : string) : (string * bool) list =
 
 let clauses (line : string) (impl : string) : (string * bool) list =
   let comp, h = parse_kv line in
+  if impl = "SKIPPED" then [] else
   match comp with
   | "raw" -> clauses_raw h impl
   | "capture" -> clauses_capture h impl
